@@ -142,6 +142,35 @@ def res_check(c, val, st):
     return None
 
 
+def env_at(toks):
+    """failing set of the checker environment at each step of a case: step index -> set of resources (from the 'F k r..' steps)"""
+    out = {}
+    try:
+        i = toks.index('H') + 1
+    except ValueError:
+        return out
+    env = set(); step = 0
+    while i < len(toks):
+        t = toks[i]
+        if t == 'E': i += 3
+        elif t == 'D': i += 2
+        elif t == 'F':
+            k = int(toks[i + 1]); env = set(int(x) for x in toks[i + 2:i + 2 + k]); i += 2 + k
+        elif t in ('S', 'Z'):
+            n = int(toks[i + 1]); i += 2
+            for _ in range(n):
+                o = toks[i]
+                if o == 'q': i += 2
+                elif o == 'b': i += 2 + int(toks[i + 1])
+                elif o == 'e': i += 3
+                else: return out
+            out[step] = set(env)
+        else:
+            return out
+        step += 1
+    return out
+
+
 def run_oracles(prog, meta, sessions):
     """sessions: list of P.Sess of one case (implementation side, with fresh references).  Returns findings."""
     out = []
@@ -373,6 +402,25 @@ def run_oracles(prog, meta, sessions):
                     if missing:
                         out.append(('C09', 'requirer-not-checked', '%s: task %s was executed in the bottom-up build, but the recorded require(s) of it by %r were not checked against its new output (checked: %r)' % (where, x, missing, sorted(checked))))
                         break
+
+        # ---- C18: "the error is reported ... never swallowed", bottom-up: every recorded read / write dependency on a REPORTED resource is
+        # validated; when its checker is the failing one (id 4) and the resource is in the failing set of the moment, that validation
+        # errs and the error (100 + resource) must be among the session's dependency-check errors -- once per such dependency
+        env = meta.get('env_at', {}).get(s.step)
+        if is_bu and prev_nodes and env and not ab:
+            evs_ = [e.split() for e in s.events]
+            reported = []
+            for e in evs_:
+                if e[0] == 'BS': break
+                if e[0] == 'SBRS' and e[1] not in reported: reported.append(e[1])
+            for r in reported:
+                if int(r) not in env: continue
+                holders = [src for (k, src) in prev_nodes.get('R' + r, {}).get('ins', []) if k in ('R', 'W')
+                           and any(tgt == 'R' + r and c_ == '4' for (kk, tgt, c_, st_) in prev_nodes.get(src, {}).get('outs', []))]
+                got = sum(1 for x in s.errs if x == str(100 + int(r)))
+                if got < len(holders):
+                    out.append(('C18', 'erring-check-not-reported', '%s: resource R%s was reported to the bottom-up build while its checker fails; %d recorded dependencies on it use that checker (%r), but the session reports the error only %d time(s): %r' % (where, r, len(holders), holders, got, s.errs)))
+                    break
 
         # ---- C09 (C03): scheduling for a reported resource checks every recorded read and write dependency on it with its own checker
         if is_bu and prev_nodes:
